@@ -142,6 +142,11 @@ def version_route(F, R):
             for bi, j, s in c.assigns():
                 if s['rv']['k'] == 'bin' and s['rv']['op'] in ('Eq', 'Ne') and (const_val(s['rv']['a']) == lvl or const_val(s['rv']['b']) == lvl):
                     ok = True
+                elif s['rv']['k'] == 'bin' and s['rv']['op'] in ('Eq', 'Ne'):
+                    # the expected level handed to a shared helper as an argument (`decode_connect_header(src, 5)`)
+                    for o_ in (s['rv']['a'], s['rv']['b']):
+                        if op_place(o_) is not None and {l[1] for l in Origin(c).of_operand(o_) if l[0] == 'const'} == {lvl}:
+                            ok = True
             for bi, t in c.calls():
                 if re.search(r'PartialEq.*::(eq|ne)$', callee_name(t) or ''):
                     for a in t['args']:
